@@ -405,6 +405,15 @@ func sigKeyPool() []sigKey {
 	return sigKeys
 }
 
+func indexOfKey(keys []sigKey, k sigKey) int {
+	for i := range keys {
+		if keys[i].cert == k.cert {
+			return i
+		}
+	}
+	return 0
+}
+
 func (k sigKey) sign(payload string) string {
 	h := sha256.Sum256([]byte(payload))
 	s, err := k.signer.Sign(rand.Reader, h[:], crypto.SHA256)
@@ -516,6 +525,14 @@ func genSig(g *Gen, n int) {
 				sig = g.pick("", "!!!notbase64", base64.StdEncoding.EncodeToString([]byte("garbage")), k.sign(payload+"x"))
 			case 3:
 				cert = g.pick("", "-----BEGIN CERTIFICATE-----\nAAAA\n-----END CERTIFICATE-----\n", "no pem")
+			case 4:
+				// a bundle: the user certificate followed by another one (the FIRST block decides), the
+				// reverse order, or a well-formed PEM block that is not a certificate
+				other := keys[(g.intn(len(keys)-1)+1+indexOfKey(keys, k))%len(keys)].cert
+				cert = g.pick(k.cert+other, other+k.cert,
+					"-----BEGIN EC PARAMETERS-----\nBggqhkjOPQMBBw==\n-----END EC PARAMETERS-----\n"+k.cert,
+					"-----BEGIN PUBLIC KEY-----\nMFkwEwYHKoZIzj0CAQYIKoZIzj0DAQcDQgAEAAAAAAAAAAAAAAAAAAAAAAAAAAAAAAAAAAAAAAAAAAAAAAAAAAAAAAAAAAAAAAAAAAAAAAAAAAAAAAAAAAAAAA==\n-----END PUBLIC KEY-----\n")
+				g.count("shape/pem-bundle")
 			}
 			js := fmt.Sprintf("{\"signature\":%s,\"algorithm\":%s,\"certificate\":%s}", jsonStr(sig), jsonStr(alg), jsonStr(cert))
 			jsOk, fs, fa, fc := "1", sig, alg, cert
